@@ -110,7 +110,7 @@ KINDS = ["rmsd", "superpose", "relations", "rmsd", "superpose", "precentered", "
          "junk", "lprmsd", "alignment"]
 NS = {"quick": list(range(3, 68)) + [100, 1000, 4000],
       "thorough": list(range(3, 132)) + [255, 256, 257, 258] + list(range(997, 1005)) + [3998, 3999, 4000, 4001]}
-NCASES = {"quick": 6500, "thorough": 130000}
+NCASES = {"quick": 14000, "thorough": 130000}
 SHAPES = ["random", "random", "chain", "planar", "planar0", "aniso", "sym", "nearline"]
 RELS = ["unrelated", "pert4", "pert2", "pert1", "identical", "mirror", "mirrorpert"]
 ROTS = ["random", "random", "random", "identity", "half_exact", "half_axis", "near_half", "small"]
